@@ -496,15 +496,85 @@ func TestC13(t *testing.T) {
 			}
 		})
 	})
+	t.Run("longlived", func(t *testing.T) {
+		// one target node through many rounds of child-before-parent delivery (see c13_longlived_test.go)
+		gen := rapid.Custom(func(rt *rapid.T) c13Long {
+			var c c13Long
+			nr := rapid.IntRange(3, 9).Draw(rt, "rounds")
+			for i := 0; i < nr; i++ {
+				r := c13Round{Shape: rapid.SampledFrom([]string{"fan", "fan", "chain", "rchain"}).Draw(rt, "shape")}
+				switch r.Shape {
+				case "fan":
+					if rapid.IntRange(0, 5).Draw(rt, "bulk") == 0 {
+						r.N = rapid.IntRange(400, 495).Draw(rt, "nBulk") // close to the 500 the buffer promises to hold
+						r.Passes = rapid.IntRange(0, 2).Draw(rt, "passes")
+					} else {
+						r.N = rapid.IntRange(3, 120).Draw(rt, "n")
+						r.Passes = rapid.IntRange(0, 8).Draw(rt, "passes")
+					}
+					r.Rot = rapid.IntRange(0, 50).Draw(rt, "rot")
+				case "chain":
+					r.N = rapid.IntRange(2, 60).Draw(rt, "n")
+					r.Passes = rapid.IntRange(0, 8).Draw(rt, "passes")
+				default:
+					r.N = rapid.IntRange(2, 10).Draw(rt, "n")
+					r.Passes = rapid.IntRange(0, 6).Draw(rt, "passes")
+				}
+				c.Rounds = append(c.Rounds, r)
+			}
+			return c
+		})
+		cases := scale(2, 6)
+		for i := 0; i < cases; i++ {
+			if outOfBudget(st) {
+				break
+			}
+			worldsMade++
+			c := gen.Example(envInt("VERIF_SEED", 1)*7919 + shard()*101 + i)
+			sig, msg, ls, inc := c13LongRun(c, fmt.Sprintf("c13-long-%d-%d", shard(), i))
+			st.eval(1)
+			st.label("longlived:case")
+			if inc != "" {
+				st.label("inconclusive-case")
+				st.note("inconclusive: %s", inc)
+				continue
+			}
+			st.nontrivial(fp64(fmt.Sprintf("long %+v", c)))
+			if i == 0 {
+				st.sample(map[string]any{"longlived": c, "harness_retries": ls.pops, "max_parked": ls.maxParked})
+			}
+			st.labelN("longlived:children-admitted-after-parking", int64(ls.admitted))
+			if ls.pops > 500 {
+				st.label("longlived:node-did->500-retries-over-its-lifetime")
+			}
+			if ls.maxParked >= 400 {
+				st.label("longlived:>=400-parked-at-once")
+			}
+			if sig != "" && st.reportOnce(sig, msg, map[string]any{"longlived": c}) {
+				t.Errorf("C13 violated (%s): %s", sig, msg)
+			}
+		}
+	})
 }
 
 func TestReplayC13(t *testing.T) {
 	var wrap struct {
-		Shape string  `json:"shape"`
-		Case  c13Case `json:"case"`
+		Shape string   `json:"shape"`
+		Case  c13Case  `json:"case"`
+		Long  *c13Long `json:"longlived"`
 	}
 	loadReplay(t, &wrap)
 	sim.Chdir(t.TempDir())
+	if wrap.Long != nil {
+		sig, msg, _, inc := c13LongRun(*wrap.Long, "c13-long-replay")
+		if sig != "" {
+			t.Fatalf("VIOLATION reproduced sig=%s: %s", sig, msg)
+		}
+		if inc != "" {
+			t.Logf("inconclusive: %s", inc)
+		}
+		return
+	}
 	cw, err := c13Build(wrap.Case, "c13-replay")
 	if err != nil {
 		t.Skipf("build: %v", err)
